@@ -15,7 +15,7 @@
    * [reach cx p n m0 = Some m]: [m] is reached from [m0] by [n] steps of [Machine.step]. *)
 From Coq Require Import List Arith NArith Ascii String Bool.
 From PV Require Import Base.Bytes AVM.Syntax AVM.Ops AVM.Machine AVM.Parse AVM.StackSig AVM.StackCheck
-  Proofs.StackSigProof Proofs.StackCheckSound.
+  Proofs.StackSigProof Proofs.StackSigPool Proofs.StackCheckSound.
 Import ListNotations.
 
 (* Soundness, for EVERY program, routine table and annotation the checker accepts, every typed context,
@@ -135,6 +135,14 @@ Theorem C05_signatures_necessary :
     operands_ok (sig_of o imms) stk = true.
 Proof. exact sig_necessary. Qed.
 Print Assumptions C05_signatures_necessary.
+
+(* (3) the table is not too lax either (finite check, 127 opcode/immediate cases x all operand shapes up to the
+   opcode's depth over {uint64, bytes}): every shape the signature accepts is realised by some stack from a
+   small pool of values on which the machine succeeds.  With (2): a shape is accepted exactly when the opcode
+   can succeed on operands of that shape, so [shape_failure] = "fails whatever the operand VALUES are". *)
+Theorem C05_signatures_realisable_on_pool : all_realisable = true /\ all_meaningful = true.
+Proof. exact sig_realisable_on_pool. Qed.
+Print Assumptions C05_signatures_realisable_on_pool.
 
 (* ---- non-vacuity: real compileTeal output (pasted), parsed by AVM/Parse.v, checked by vm_compute ---- *)
 Local Open Scope string_scope.
